@@ -36,6 +36,8 @@ pub struct Flags {
     /// which property a completeness failure is reported under
     pub complete_as: &'static str,
     pub inval_as: &'static str,
+    /// report ttl/tti violations under this property instead of C05/C06
+    pub expired_as: Option<&'static str>,
 }
 
 impl Flags {
@@ -43,6 +45,7 @@ impl Flags {
         let mut f = Flags {
             complete_as: "C03",
             inval_as: "C01",
+            expired_as: None,
             ..Flags::default()
         };
         match p {
@@ -71,7 +74,12 @@ impl Flags {
             "C12" => f.lru = true,
             "C13" => f.admit = true,
             "C14" => f.sketch = true,
-            "C16" => f.iter_exact = true,
+            "C16" => {
+                f.iter_exact = true;
+                f.ttl = true;
+                f.tti = true;
+                f.expired_as = Some("C16");
+            }
             "ALL" => {
                 f = Flags {
                     stale: true,
@@ -92,6 +100,7 @@ impl Flags {
                     loss: true,
                     complete_as: "C03",
                     inval_as: "C01",
+                    expired_as: None,
                 }
             }
             _ => {}
@@ -171,6 +180,8 @@ enum Prim {
     ContainsFresh { sel: u16 },
     IterAdvance { after: u8, ns: u64 },
     BurstInvalidate { n: u32 },
+    DebugFmt,
+    IterInvalidateAll { after: u8 },
 }
 
 fn expand(ops: &[Op]) -> Vec<(usize, Prim)> {
@@ -202,6 +213,8 @@ fn expand(ops: &[Op]) -> Vec<(usize, Prim)> {
             Op::ContainsFresh { sel } => v.push((i, Prim::ContainsFresh { sel })),
             Op::IterAdvance { after, ns } => v.push((i, Prim::IterAdvance { after, ns })),
             Op::BurstInvalidate { n } => v.push((i, Prim::BurstInvalidate { n })),
+            Op::DebugFmt => v.push((i, Prim::DebugFmt)),
+            Op::IterInvalidateAll { after } => v.push((i, Prim::IterInvalidateAll { after })),
         }
     }
     v
@@ -524,14 +537,14 @@ impl<'a> Exec<'a> {
             if let Some(d) = self.cfg.ttl {
                 let t = self.seq_t[seq as usize];
                 if t + d <= now {
-                    viol!("C05", step, "{via}(k{k}) showed v{seq} inserted at {t} with ttl {} at reading {now} (>= {})", fmt_ns(d), t + d);
+                    viol!(self.flags.expired_as.unwrap_or("C05"), step, "{via}(k{k}) showed v{seq} inserted at {t} with ttl {} at reading {now} (>= {})", fmt_ns(d), t + d);
                 }
             }
         }
         if self.flags.tti {
             if let (Some(d), Some(e)) = (self.cfg.tti, &mk.cur) {
                 if e.acc_hi + d <= now {
-                    viol!("C06", step, "{via}(k{k}) showed v{seq} at reading {now} although its last insert/update/successful get was at {} and tti is {}", e.acc_hi, fmt_ns(d));
+                    viol!(self.flags.expired_as.unwrap_or("C06"), step, "{via}(k{k}) showed v{seq} at reading {now} although its last insert/update/successful get was at {} and tti is {}", e.acc_hi, fmt_ns(d));
                 }
             }
         }
@@ -725,6 +738,44 @@ impl<'a> Exec<'a> {
                 } else {
                     self.check_missing(step, "contains_key", k)?;
                 }
+            }
+            Prim::IterInvalidateAll { after } => {
+                if let Some((a, b)) = self.sub().iter_with_invalidate_all(after as usize) {
+                    for (k, seq, _) in &a {
+                        self.check_shown(step, "iter", *k, *seq)?;
+                    }
+                    // model effect of invalidate_all on the concurrent cache
+                    self.va = Some(now);
+                    let mut n = 0;
+                    for m in self.keys.values_mut() {
+                        if let Some(e) = &m.cur {
+                            if e.t_mod < now {
+                                m.was_invalidated = true;
+                                n += 1;
+                            }
+                        }
+                    }
+                    if n > 0 {
+                        self.removal_causes.insert("invalidate_all");
+                        self.stats.add("invalidated_entries", n);
+                    }
+                    for (k, seq, _) in &b {
+                        self.check_shown(step, "iter (continued after invalidate_all returned)", *k, *seq)?;
+                    }
+                    if !b.is_empty() {
+                        self.stats.inc("iterations_continued_after_invalidate_all");
+                    }
+                    self.tr(format!("iter() -> first {:?}; invalidate_all(); then {:?}", a.iter().map(|(k, s, _)| format!("k{k}=v{s}")).collect::<Vec<_>>(), b.iter().map(|(k, s, _)| format!("k{k}=v{s}")).collect::<Vec<_>>()));
+                    self.results.push((step, "iter_invalidate_all".into()));
+                }
+            }
+            Prim::DebugFmt => {
+                // the Debug output is an iteration: same oracle, under another entry point
+                let mut pairs = self.sub().debug_pairs();
+                pairs.sort();
+                self.tr(format!("format!(\"{{:?}}\", cache) lists {:?}", pairs.iter().map(|(k, s)| format!("k{k}=v{s}")).collect::<Vec<_>>()));
+                let items: Vec<(u32, u32, u32)> = pairs.iter().map(|(k, s)| (*k, *s, 0)).collect();
+                self.check_iter(step, &items)?;
             }
             Prim::Iter => {
                 let mut items = self.sub().iter();
